@@ -417,6 +417,8 @@ def gen_cases(rng, tier, fields, gfq):
            4: 3 if not big else 4, 9: 2 if not big else 3, 8: 2 if not big else 3, 13: 2, 101: 1 if not big else 2}
     for F in allF:
         dmax = exh.get(F.q, 2 if F.q < 50 else 1)
+        if F.q > 200:
+            dmax = 0
         for cst in range(1, min(F.q, 6)):
             add(("irr", "irr.mod", "irr2", "irr2.mod")[cst % 4], F, [], [[cst]], {"exh": True}, "constant")
         for d in range(1, dmax + 1):
@@ -502,6 +504,8 @@ def gen_cases(rng, tier, fields, gfq):
             elif kind == 7:    # multiplicity p+1 / p-1
                 f = IRR.get(rng, F, 1, True)
                 facs = [(f, F.p + 1 if F.p <= 5 else 4)]; kl = "multiplicity p+1"
+            elif F.q ** 3 > 5000:      # large field: random product of random irreducibles (brute-force factoring is out of reach)
+                facs = [(IRR.get(rng, F, rng.range(1, 3)), rng.range(1, 2)) for _ in range(rng.range(1, 3))]; kl = "random product"
             else:
                 P = rand_poly(rng, F, rng.range(1, 9 if F.q < 10 else 6), monic=True)
                 facs = None; kl = "random"
